@@ -452,6 +452,22 @@ Proof.
   destruct A as [A1 A2]. repeat (split; [assumption|]). exact F6.
 Qed.
 
+(* (a), whole path, as an equivalence: exactly the packets that get through the NIC's destination
+   filter and ipv6 HandlePacket as ICMPv6 and whose message is a solicitation for a NIC address *)
+Theorem nd_deliver_answer_iff locals myMAC srcMAC views :
+  (exists p l, nd_deliver locals myMAC srcMAC views = NdDone (Some p) l) <->
+  (exists r vs, nic6_deliver locals views = Some (NICMP r vs) /\
+     nd_is_solicit (vv_first vs) /\ In (nd_target (vv_first vs)) locals).
+Proof.
+  unfold nd_deliver. split.
+  - intros (p & l & H).
+    destruct (nic6_deliver locals views) as [[| |r vs|]|]; try discriminate.
+    exists r, vs. split; [reflexivity|].
+    apply (nd_advert_iff_target_local locals (mkNRoute (r_local r) (r_remote r) myMAC srcMAC) vs). eauto.
+  - intros (r & vs & -> & Hs & Ht).
+    apply (nd_advert_iff_target_local locals (mkNRoute (r_local r) (r_remote r) myMAC srcMAC) vs). auto.
+Qed.
+
 Theorem nd_deliver_foreign_destination_silent locals myMAC srcMAC views dst :
   ipv6_destinationAddress (vv_first views) = Some dst -> ~ In dst locals ->
   nd_deliver locals myMAC srcMAC views = NdDone None [].
@@ -502,11 +518,11 @@ Proof.
   witness.
 Qed.
 
-(* ... and in the "only if" direction when "own address" is read as a unicast address of the stack: a
-   multicast group added to the NIC (which the application must do to receive solicitations at all)
-   counts as a local address for CheckLocalAddress, so a solicitation whose target is the group
-   address is answered, with the multicast address as IPv6 source of the advertisement (RFC 4861
-   7.1.1 requires such solicitations to be discarded). *)
+(* A deviation from RFC 4861 (not from the property text, for which "one of its own addresses" is any
+   address the NIC holds): a multicast group added to the NIC (which the application must do to
+   receive solicitations at all) counts as a local address for CheckLocalAddress, so a solicitation
+   whose target is the group address is answered, with the multicast address as IPv6 source of the
+   advertisement (RFC 4861 7.1.1 requires such solicitations to be discarded). *)
 Theorem nd_multicast_target_refuted :
   exists locals myMAC srcMAC pkt src dst msg p l,
     rfc_valid_nd pkt src dst msg /\ nd_is_solicit msg /\ nth 0 (nd_target msg) 0 = 255 /\
@@ -518,7 +534,7 @@ Proof.
   eexists. eexists. witness.
 Qed.
 
-(* none of the RFC 4861 7.1.1 / 7.1.2 validity checks is made: a solicitation with hop limit 1 (it
+(* a deviation from RFC 4861 (not from the property text): none of the 7.1.1 / 7.1.2 validity checks is made: a solicitation with hop limit 1 (it
    may come from off-link), a non-zero code and a wrong checksum is answered and learned from *)
 Theorem nd_validity_checks_refuted :
   exists locals myMAC srcMAC pkt src dst msg p,
@@ -531,10 +547,11 @@ Proof.
   eexists. witness.
 Qed.
 
-(* "learns the sender's mapping": what is recorded is the link-layer SOURCE OF THE FRAME; the
-   source / target link-layer address options are never read.  An advertisement that states another
-   link address for its target (RFC 4861 7.2.5: the cache is updated from the option) is recorded
-   with the frame's source instead. *)
+(* A deviation from RFC 4861 (not from the property text, for which "the sender's mapping" is the
+   sender's address with the link address the frame came from): what is recorded is the link-layer
+   SOURCE OF THE FRAME; the source / target link-layer address options are never read.  An
+   advertisement that states another link address for its target (RFC 4861 7.2.5: the cache is
+   updated from the option) is recorded with the frame's source instead. *)
 Theorem nd_learns_stated_address_refuted :
   exists locals myMAC srcMAC pkt src dst msg stated,
     rfc_valid_nd pkt src dst msg /\ nd_is_advert msg /\ bytes_at msg 24 8 = [2; 1] ++ stated /\
@@ -547,7 +564,8 @@ Proof.
   witness.
 Qed.
 
-(* a duplicate-address-detection probe (source = the unspecified address) for an own address is
+(* a deviation from RFC 4861 (not from the property text): a duplicate-address-detection probe
+   (source = the unspecified address) for an own address is
    answered to the unspecified address (RFC 4861 7.2.4: to all-nodes) and the pair
    (unspecified address, link-layer source) is put into the cache (7.2.3: MUST NOT) *)
 Theorem nd_unspecified_source_refuted :
